@@ -1,4 +1,5 @@
 import UF.Proofs.MaskText
+import UF.Proofs.RegexQuirk
 /-
   C03, parser level: the text `maskText p` of a mask pattern parses -- with the fold-based model of
   `regexp/syntax.Parse` -- to exactly the expression `maskAst (tokenize p)`: every body byte's piece of
@@ -310,7 +311,8 @@ theorem prepare_parse (p : Bytes) (hp : ∀ b ∈ p, b < 128)
     refine ⟨_, rfl, ?_⟩
     unfold parseRE
     rw [if_neg (by rw [maskText_noCi]; exact Bool.false_ne_true), parseCore_maskText p hp]
-    simp [maskAst]
+    -- a mask expression has no source of case-folded literals: Go's tree is the textbook tree
+    simp [maskAst, goTree_of_not_hazard _ _ (hazard_maskAtoms (tokenize p))]
   | false =>
     refine ⟨_, rfl, ?_⟩
     have : lit "(?i)" = ciPrefix := by decide
